@@ -69,6 +69,10 @@ LONG = [
 
 
 def run(ctx, log):
+    eo_ = progcheck.evaluation_order_family()
+    progcheck.pipeline(ctx, eo_, log, budget=20000, label="evaluation-order", shard_size=60)
+    for s_ in eo_:
+        ctx.seen(("evaluation-order", s_))
     # enumerated families decided by Sem.v: how function / loop bodies end; names that live in several name spaces
     extra_sem_families = []
     extra_sem_families += progcheck.function_endings_family(ctx.quick)
